@@ -60,17 +60,28 @@ def check(prop, tier, args):
     aggs = []
     harness = []
     ctx = multiprocessing.get_context('fork')
+    died = []
     with ProcessPoolExecutor(max_workers=nw, mp_context=ctx) as ex:
-        futs = [ex.submit(runner.worker, j) for j in jobs]
+        futs = {ex.submit(runner.worker, j): j for j in jobs}
         for f in as_completed(futs):
             try:
                 aggs.append(f.result(timeout=budget + 600))
             except Exception as e:  # noqa
-                harness.append('worker died: %r' % (e,))
+                died.append((futs[f], e))
+    crash_viols = []
+    if died:
+        # a worker process was killed (e.g. a segfault in a compiled kernel):
+        # find the run and event in fresh interpreters with write-ahead logs
+        lost = [sd for j, _ in died for sd in j[0]]
+        crash_viols = runner.isolate_crash(prop, tier, lost, owners)
+        if not crash_viols:
+            harness.append('worker died: %r (not reproduced in isolation '
+                           'over %d seeds)' % (died[0][1], len(lost)))
     tot = {'runs': 0, 'events': 0, 'stats': Counter(), 'cases': set(),
            'probe_count': Counter(), 'known_seen': Counter(),
            'violations': [], 'signals': [], 'samples': [], 'digests': {},
            'truncated': False}
+    tot['violations'] += crash_viols
     for a in aggs:
         tot['runs'] += a['runs']
         tot['events'] += a['events']
